@@ -225,6 +225,11 @@ func c16Site(o *origin, seedv int64, idx, n int, hostBase int) []string {
 			case 6:
 				o.set(h, uri+".bin", &route{AlwaysReset: true, Tag: "reset"})
 				assets = append(assets, uri+".bin")
+			case 7: // a gzip-encoded error page of some size on every attempt (the last attempt's body must be released too)
+				body := make([]byte, 48<<10)
+				rng.Read(body) // incompressible: > 4 KiB on the wire
+				o.set(h, uri+".dat", &route{Status: pick2(rng, 503, 500), Headers: map[string]string{"Content-Type": "text/html"}, Body: body, Gzip: true, Tag: "always-5xx-gzip-large"})
+				assets = append(assets, uri+".dat")
 			default:
 				o.set(h, uri+".png", &route{Status: 200, Headers: map[string]string{"Content-Type": "image/png"}, Body: pngBytes, Tag: "leaf"})
 				assets = append(assets, uri+".png")
